@@ -8,7 +8,7 @@ from xml.sax.saxutils import escape
 from vlib import core
 from vlib.coqterm import App
 
-HEADER = ('From Coq Require Import List ZArith NArith Bool.\nFrom DV Require Import C03.Model.\nImport ListNotations.\n')
+HEADER = ('From Coq Require Import List ZArith NArith Bool.\nFrom DV Require Import C03.Model C03.Spec2.\nImport ListNotations.\n')
 
 # strings of the model are codes; the code order is the byte order of these texts
 STRS = ['A', 'Ab', 'B', 'High', 'Low', 'Medium', 'a', 'a b', 'aa', 'b', 'z', 'é']
@@ -253,8 +253,13 @@ def gen_atom(rng, kind, lo=-2, hi=9):
 
 
 def gen_item(rng, kind, odd):
-    if odd and rng.random() < 0.04:     # ill-typed / null literal (judged against the ImplModel only)
+    if odd and rng.random() < 0.05:     # a literal, comparison or interval of another kind than the input / the null literal
         k2 = rng.choice(['null', 'n', 's', 'b'])
+        if k2 in ('n', 's') and rng.random() < 0.5:
+            if rng.random() < 0.5:
+                return ('cmp', rng.choice(['lt', 'le', 'gt', 'ge']), gen_atom(rng, k2, 0, 9))
+            a, b = sorted([gen_atom(rng, k2, 0, 9), gen_atom(rng, k2, 0, 9)])
+            return ('rng', a, rng.random() < 0.5, b, rng.random() < 0.5, 0)
         return ('lit', NULL if k2 == 'null' else gen_atom(rng, k2))
     if rng.random() < 0.03:
         return ('lit', NULL)                # the null literal is a test like any other literal
@@ -370,16 +375,38 @@ def gen_tuples(rng, t, n, odd=True):
         if xs not in chosen:
             chosen.append(xs)
     chosen = chosen[:n]
-    if odd and rng.random() < 0.15 and chosen:         # a null input value
+    if odd and rng.random() < 0.3 and chosen:          # a null input value (inside the theorems: the Spec is compared)
         xs = list(chosen[-1])
         xs[rng.randrange(len(xs))] = NULL
         chosen[-1] = xs
     return chosen
 
 
+# the witnesses of coq/C03 (null_literal_known, scope_hypotheses_needed) as generator tables: every run demonstrates the
+# known finding null-literal-entry against the real code
+def _t1(hp, rules):
+    return {'hp': hp, 'inputs': [{'kind': 'n', 'values': None}], 'outputs': [{'name': None, 'values': None, 'default': None, 'pool': [], 'kind': 'n'}],
+            'rules': [{'in': [u], 'out': [('n', o)]} for u, o in rules]}
+
+
+WITNESSES = [
+    (_t1('COLLECT', [(('pos', [('lit', NULL)]), 7), (('neg', [('lit', NULL)]), 8), (('pos', [('lit', ('n', 1)), ('lit', NULL)]), 9)]),
+     [[NULL], [('n', 1)], [('n', 5)]]),
+    (_t1('FIRST', [(('pos', [('lit', ('n', 1)), ('lit', NULL), ('lit', ('n', 2))]), 7)]),
+     [[('n', 1)], [('n', 2)], [NULL], [('n', 3)]]),
+    (_t1('COLLECT', [(('neg', [('cmp', 'lt', ('n', 5))]), 1), (('pos', [('cmp', 'lt', ('n', 5))]), 2), (('any',), 3), (('neg', [('rng', ('n', 1), True, ('n', 5), True, 0)]), 4),
+                     (('pos', [('cmp', 'le', ('s', 2)), ('lit', ('b', True))]), 5), (('neg', [('cmp', 'ge', ('s', 2)), ('lit', ('b', True))]), 6)]),
+     [[NULL], [('n', 3)], [('n', 7)]]),
+    # booleans are not ordered: `<= true` holds of no value (not of true either), not(<= true) of every value
+    (dict(_t1('COLLECT', [(('pos', [('cmp', 'le', ('b', True))]), 1), (('neg', [('cmp', 'le', ('b', True))]), 2), (('any',), 3)]), inputs=[{'kind': 'b', 'values': None}]),
+     [[('b', True)], [('b', False)], [NULL]]),
+]
+
+
 # ------------------------------------------------------------------ the check
 def model_term(t, tuples):
-    return ('let t := %s in map (fun xs => (dt_impl t xs, dt_impl_orig t xs, dt_spec t xs, (wf t && typed t xs)%%bool, length (hits t xs), (wf t && typed_nl t xs)%%bool)) %s'
+    return ('let t := %s in map (fun xs => (dt_impl t xs, dt_impl_orig t xs, dt_spec t xs, (wf t && in_scope t xs)%%bool, length (hits t xs), '
+            '(wf t && arity_ok t xs)%%bool, (wf t && agreeing t xs)%%bool)) %s'
             % (coq_table(t), coq_list([coq_tuple(xs) for xs in tuples])))
 
 
@@ -414,7 +441,9 @@ def judge(ctx, t, tuples, ans, mres, stats):
         ctx.violation('evaluating a generated decision table killed the process: %s' % json.dumps(ans)[:200], describe(t, tuples[0] if tuples else []), impl=ans)
         return
     for k, xs in enumerate(tuples):
-        m_impl, m_orig, m_spec, hyp, nhits, hyp_nl = mres[k]
+        m_impl, m_orig, m_spec, hyp, nhits, shaped, hyp_ag = mres[k]
+        # hyp: wf && in_scope (C03_policy_refines); hyp_ag: wf && agreeing (C03_policy_refines_agreeing, implied by hyp);
+        # shaped: wf && one value per input clause (outside it only code = ImplModel is judged)
         m_impl, m_orig, m_spec = canon_model(m_impl), canon_model(m_orig), canon_model(m_spec)
         if ans.get('parse') != 'ok':
             got = ('parse-' + str(ans.get('parse')),)
@@ -429,38 +458,40 @@ def judge(ctx, t, tuples, ans, mres, stats):
         hb = '0' if nhits == 0 else '1' if nhits == 1 else '2+'
         stats['hits'][hb] = stats['hits'].get(hb, 0) + 1
         stats['policy'][t['hp']] = stats['policy'].get(t['hp'], 0) + 1
-        stats['hyp'][str(hyp)] = stats['hyp'].get(str(hyp), 0) + 1
+        cls = 'in_scope' if hyp else 'agreeing (null literal not reached)' if hyp_ag else 'null literal reached' if shaped else 'ill-shaped table'
+        stats['hyp'][cls] = stats['hyp'].get(cls, 0) + 1
+        if NULL in xs:
+            stats['hyp']['of which with a null input value'] = stats['hyp'].get('of which with a null input value', 0) + 1
         ctx.nontrivial.add((t['hp'], hb, len(t['outputs']), len(t['inputs']), got[0], min(len(t['rules']), 5)))
         case = describe(t, xs)
         show = dict(impl=list(got), model=list(m_impl), spec=list(m_spec))
+        if hyp_ag and m_impl != m_spec:
+            ctx.violation('the model contradicts theorem C03_policy_refines_agreeing (ImplModel %s, Spec %s)' % (m_impl, m_spec), case, **show)
+            continue
         if got == m_impl:
-            if not hyp and hyp_nl and m_impl != m_spec:
-                # inside the hypotheses but for null literals: the listed known finding, anything else is a violation
-                key = known_class(t, xs, nhits)
-                if not (key and ctx.known(key, case)):
-                    ctx.violation('decision table result %s is not what the hit policy %s prescribes (%s); the code behaves as its model' % (got, t['hp'], m_spec), case, **show)
-                continue
-            if not hyp or m_impl == m_spec:
-                if len(ctx.samples) < 4 and nhits >= 2 and len(t['rules']) <= 4 and len(t['inputs']) <= 2:
+            if m_impl == m_spec or not shaped:
+                if len(ctx.samples) < 4 and nhits >= 2 and len(t['rules']) <= 4 and len(t['inputs']) <= 2 and hyp:
                     ctx.sample({'hit_policy': t['hp'], 'rules': [[feel_utest(u) for u in r['in']] + ['=>'] + [feel_atom(a) for a in r['out']] for r in t['rules']],
                                 'context': ctx_text(t, xs), 'result': list(got)})
                 continue
+            # a Spec deviation of a well-shaped table outside `agreeing`: a null literal is reached — the listed known finding
             key = known_class(t, xs, nhits)
-            if key and ctx.known(key, case):
-                continue
-            ctx.violation('decision table result %s is not what the hit policy %s prescribes (%s); the code behaves as its model' % (got, t['hp'], m_spec), case, **show)
+            if not (key and ctx.known(key, case)):
+                ctx.violation('decision table result %s is not what the hit policy %s prescribes (%s); the code behaves as its model' % (got, t['hp'], m_spec), case, **show)
             continue
         # the code is not the modelled algorithm here
         if got in (('crash',), ('buildcrash',)):
             if m_impl != got:
                 ctx.violation('decision table evaluation panicked (%s) where the model gives %s' % (got, m_impl), case, **show)
             continue
-        if hyp and got != m_spec:
+        if hyp_ag and got != m_spec:
             ctx.violation('decision table result %s is not what the hit policy %s prescribes (%s)' % (got, t['hp'], m_spec), case, **show)
-        elif hyp:
+        elif hyp_ag:
             ctx.corr_broken('decision_table.rs vs dt_impl (result agrees with the Spec)', case, list(got), list(m_impl))
+        elif shaped and got != m_spec and not (known_class(t, xs, nhits) and ctx.known(known_class(t, xs, nhits), case)):
+            ctx.violation('decision table result %s is not what the hit policy %s prescribes (%s)' % (got, t['hp'], m_spec), case, **show)
         else:
-            ctx.corr_broken('decision_table.rs vs dt_impl (outside the hypotheses of the refinement theorem)', case, list(got), list(m_impl))
+            ctx.corr_broken('decision_table.rs vs dt_impl (outside the hypotheses of the refinement theorems)', case, list(got), list(m_impl))
 
 
 def run(ctx):
@@ -469,6 +500,9 @@ def run(ctx):
     rng = ctx.rng
     n_tables = ctx.pick(1500, 60000)
     tables, tuples = [], []
+    for t, tp in WITNESSES:
+        tables.append(t)
+        tuples.append(tp)
     for i in range(n_tables):
         t = gen_table(rng)
         tables.append(t)
@@ -481,10 +515,10 @@ def run(ctx):
         judge(ctx, t, tp, ans, mres, stats)
     return ctx.finish(
         rule='random tables (1..4 typed inputs, 1..3 outputs, 0..8 rules, all 11 hit policies/aggregators; entries: -, literals, < <= > >=, four interval forms in both '
-             'bracket styles, disjunctions, not(..); optional input values, output values, defaults; a few ill-typed literals, null inputs, missing component names) as DMN XML; '
+             'bracket styles, disjunctions, not(..); optional input values, output values, defaults; a few ill-typed literals, null inputs, missing component names; comparisons and intervals of another kind than the input; null input values in 30 % of the tables) as DMN XML, preceded by the four witness tables of coq/C03 (null literal entries, not(..) against null); '
              '6 input tuples per table chosen so that 0, 1 and >=2 rules match; non-trivial = distinct (policy, hits 0/1/2+, #outputs, #inputs, outcome kind, #rules)',
         extra_cov={'exhaustive': False, 'tables': n_tables, 'hits_histogram': stats['hits'], 'policy_histogram': stats['policy'],
-                   'within_theorem_hypotheses': stats['hyp']},
+                   'within_theorem_hypotheses': stats['hyp']},   # in_scope / agreeing: compared with the Spec; null literal reached: known finding class
         assumptions=['input expressions are plain input names (expression evaluation is C01/C04), values are integers, strings and booleans',
                      'an input value outside the allowed input values satisfies no entry (interpretive choice, follows the code)',
                      'the parser rejects negative endpoints (`< -1`, `[-1..2]`): comparisons and intervals are generated with non-negative endpoints'],
@@ -511,7 +545,7 @@ def replay(ctx, path):
     print('context :', ctx_text(t, xs))
     print('implementation:', json.dumps(ans)[:500])
     print('ImplModel     :', canon_model(mres[0][0]))
-    print('Spec          :', canon_model(mres[0][2]), '(hypotheses hold: %s, hits: %s; without the null-literal exclusion: %s)' % (mres[0][3], mres[0][4], mres[0][5]))
+    print('Spec          :', canon_model(mres[0][2]), '(wf && in_scope: %s, hits: %s; wf && one value per input: %s; wf && agreeing: %s)' % (mres[0][3], mres[0][4], mres[0][5], mres[0][6]))
     stats = {'hits': {}, 'policy': {}, 'hyp': {}}
     judge(ctx, t, [xs], ans, mres, stats)
     fail = bool(ctx.violations or ctx.broken)
@@ -521,12 +555,25 @@ def replay(ctx, path):
 
 MANIFEST = dict(
     technique='Coq proof (refinement of a declarative hit-policy Spec by a transliteration of decision_table.rs and of the unary-test evaluation) with model/code correspondence on generated DMN XML',
-    text='Theorems (coq/Props/C03.v, closed under the global context) hold for every table and input tuple of the model, with any number of inputs, outputs and rules: '
-         'the code\'s algorithm returns what the hit policy prescribes over exactly the satisfied rules (C03_policy_refines, all 11 policies/aggregators), FIRST = least index, '
-         'RULE ORDER/COLLECT = filter-map in rule order, OUTPUT ORDER = stable sorted permutation by per-clause output-value positions, UNIQUE/ANY nulls, count, sum/min/max, '
-         'no-hit default (context for several output clauses), contexts keyed by component names, no index panic on well-shaped tables. '
+    text='Theorems (coq/Props/C03.v, closed under the global context), any number of inputs, outputs and rules. HYPOTHESES, all boolean and evaluated by the check for every case: '
+         'wf t (at least one output clause, every rule has one entry per input and per output clause, several output clauses are named distinctly) and in_scope t xs '
+         '(no literal `null` in an input entry, in allowed input values or in output values — known finding null-literal-entry — and one input value per input clause). '
+         'NOTHING is assumed about the input values: null inputs and values of another kind than the literals of an entry are inside. Under wf and in_scope the ImplModel of the code AS IT IS '
+         '(dt_impl = dt_impl_gen false false) returns what the hit policy prescribes over exactly the satisfied rules (C03_policy_refines, all 11 policies/aggregators); '
+         'C03_policy_refines_agreeing weakens in_scope to `agreeing t xs` (null literals may occur where the evaluation of (t, xs) does not reach them; C03_entry_agrees_iff characterises exactly '
+         'the (value, entry) pairs on which the code matches as the Spec says), C03_scope_hypotheses_needed_refuted has witnesses outside. '
+         'Entries: C03_entry_satisfied (an entry without the literal null — `-`, literals, comparisons, intervals, lists, not(..) — is decided by the three-valued evaluation of the current code for EVERY value, never null), '
+         'C03_entry_code_exact (every entry, null literal included: a list is read up to its first null literal), C03_sat_cases / C03_sat_null_input (what satisfied means; a null input satisfies `-`, the literal null and every not(..) without it). '
+         'The known finding is a theorem about the current model, C03_null_literal_entry_never_matches (`null`, not(null) match no value; a list none of whose tests before its first null literal is satisfied is answered null), '
+         'C03_null_literal_spec is the intended behaviour it violates, C03_null_literal_known the table-level witness (run against the real code in every run); with the literal handled no hypothesis about null remains '
+         '(C03_entry_satisfied_if_null_literal_handled, C03_policy_refines_if_null_literal_handled: wf and one value per input clause only). '
+         'Hit policies, each as a sentence about the Spec written without the code\'s sort/comparator: FIRST = least index, RULE ORDER/COLLECT = filter-map in rule order, UNIQUE/ANY nulls, count, sum/min/max (fold over the numbers / strings, null otherwise), '
+         'PRIORITY = the output of the one matching rule that precedes every matching rule before it and is preceded by none after it (C03_priority_spec, C03_priority_winner_unique), '
+         'OUTPUT ORDER = the permutation of the matching outputs in which none stands behind one it precedes, equal priorities in rule order (C03_output_order_spec), where `precedes` is the lexicographic order over the output clauses of the rank '
+         'in the clause\'s output values, unlisted last (C03_precedes_is_lexicographic); no-hit default and contexts keyed by component names in the words of the property (C03_default_spec, C03_rule_output_spec), no index panic on well-shaped tables. '
          'The entry evaluation of this model is proved equal, three-valued and for every entry and input value (null included), to the FEEL `in` operator of the independently written evaluator model of C01 (C03_matching_is_feel_in, C03_rule_matches_is_feel_in, C03_feel_in_expression; coq/C03/LinkC01.v). '
-         'The model is tied to decision_table.rs / builders.rs by evaluating thousands of generated tables through ModelEvaluator and comparing with the model evaluated by vm_compute.',
-    note='Hypotheses of the refinement: well-shaped table (>=1 output clause, one entry per clause in every rule, several outputs named distinctly) and well-typed tuple '
-         '(literals of an entry have the kind of the input value; null inputs are covered for entries made of literals and `-`; no null literal in the table: known finding null-literal-entry). Outside them (null inputs, ill-typed literals) only code = ImplModel is checked. '
-         'Values are abstract (integers, strings, booleans); input expressions are plain names; FEEL parsing of entries is sampled, not proved. Three defects of the pinned commit were repaired (fix: commits) and are refuted for dt_impl_orig.')
+         'The model is tied to decision_table.rs / builders.rs by evaluating thousands of generated tables (null inputs, literals / comparisons / intervals of another kind than the input, null literals included) through ModelEvaluator and comparing with the model evaluated by vm_compute; '
+         'inside wf and agreeing the code is compared with the Spec.',
+    note='Outside wf (no output clause, short rules, unnamed or duplicate components) only code = ImplModel is checked (C03_crash_if_ill_shaped). '
+         'Interpretive choices of the Spec, shared with the code: an input value outside the allowed input values satisfies no entry; not(< 5) holds of a null input (the comparison does not hold). '
+         'Values are abstract (integers, strings, booleans); input expressions are plain names; FEEL parsing of entries is sampled, not proved. Four defects of the pinned commit were repaired (fix: commits) and are refuted for dt_impl_orig.')
